@@ -163,11 +163,12 @@ def correspond(ctx):
                                           replay={'scenario': name, 'mode': key[0], 'hashseed': key[1]}))
         if len(r.get('xfails', [])) < 20:
             c.failures.append(Failure('correspondence', 'the failing Python-level scenarios did not all run: %s' % r.get('xfails')))
-        if r.get('args_before') != r.get('args_after'):
-            note = ('observation: SynthDef(..., rates=lst) pads the CALLER\'s list in place (`rates += [0] * ...` in _args_to_controls): shared build '
-                    'arguments before %s after %s; the bytes of later builds are unaffected' % (r.get('args_before'), r.get('args_after')))
-            if not any(n.startswith('observation: SynthDef(..., rates=lst)') for n in c.notes):
-                c.notes.append(note)
+        if r.get('args_before') != r.get('args_after') and not any(f.signature == 'C20:args-mutated' for f in c.failures):
+            c.failures.append(Failure('correspondence',
+                                      'build arguments shared between builds (rates lists, variants, metadata) were modified in place by a build: '
+                                      'before %s after %s' % (r.get('args_before'), r.get('args_after')),
+                                      replay={'before': r.get('args_before'), 'after': r.get('args_after'), 'scenario': 'harness/impl/c20_extras.py RATES/RATES4/VARIANTS/META'},
+                                      found_input=True, signature='C20:args-mutated', theorem='failed_build_no_residue'))
         nb = r.get('nested') or {}
         if nb and not nb.get('finished'):
             note = ('observation (outside the quantifier): SynthDef(...) inside the graph function of another build dead-locks on the non re-entrant '
